@@ -577,6 +577,7 @@ func Ops(g *vh.Gen, nm int, p Profile) string {
 	for i := 0; i < n; i++ {
 		mb := g.Intn(nm)
 		x := g.Float64()
+		y := (x - p.PAdd) / (1 - p.PAdd) // position within the non-add operations
 		switch {
 		case x < p.PAdd:
 			size := p.Sizes[g.Intn(len(p.Sizes))]
@@ -586,19 +587,19 @@ func Ops(g *vh.Gen, nm int, p Profile) string {
 			date += int64(g.Intn(100))
 			ops = append(ops, fmt.Sprintf("a%d:%d:%d", mb, date, size))
 			adds[mb]++
-		case x < p.PAdd+0.12:
+		case y < 0.19:
 			ops = append(ops, fmt.Sprintf("g%d:%s", mb, handle(mb)))
-		case x < p.PAdd+0.27:
+		case y < 0.43:
 			ops = append(ops, fmt.Sprintf("l%d", mb))
-		case x < p.PAdd+0.35:
+		case y < 0.56:
 			ops = append(ops, fmt.Sprintf("s%d:%s", mb, handle(mb)))
-		case x < p.PAdd+0.50:
+		case y < 0.80:
 			h := handle(mb)
 			ops = append(ops, fmt.Sprintf("r%d:%s", mb, h))
 			if g.Chance(0.2) {
 				ops = append(ops, fmt.Sprintf("r%d:%s", mb, h)) // double remove
 			}
-		case x < p.PAdd+0.55:
+		case y < 0.90:
 			ops = append(ops, fmt.Sprintf("p%d", mb))
 			if g.Chance(0.5) {
 				ops = append(ops, fmt.Sprintf("g%d:l", mb)) // purge-then-latest
